@@ -114,3 +114,25 @@ def _sr(c):
     c.param("routines", ("cdict", {}))
     c.ensures("self._routines is routines and self._children is not None", "only-the-routine-table-is-replaced")
     c.modifies("self._routines")
+
+
+# ================================================================================================== C06: the path a file is exported under
+# Element.export_path: the EXPORT names (sanitised, made unique per level) of the element and of its ancestors, outermost first -
+# never the stored names.  Proved for an element two levels below the image root (partition / volume / file is the deepest AKAI nesting
+# plus one); the walk up the parent chain ends at the root, whose stored path is empty.
+def _node(tag, path_len, parent):
+    return ("named", tag, ("obj", "smpl_extract.base:Element", {"_path": ("clist", ["str"] * path_len), "_parent": parent, "_export_name": "str", "_safe_name": "str",
+                                                               "name": "str"}))
+
+
+_ROOT = ("named", "root", ("obj", "smpl_extract.base:Element", {"_path": ("clist", []), "_parent": ("const", None), "_export_name": ("const", None),
+                                                               "_safe_name": ("const", None), "name": "str"}))
+
+
+@contract("smpl_extract.base:Element.export_path[depth=3]", source_key="smpl_extract.base:Element.export_path", props=["C06", "C13"], proof_only=True)
+def _ep(c):
+    c.self_obj(("self", "smpl_extract.base:Element", {"_path": ("clist", ["str"] * 3), "_export_name": "str", "_safe_name": "str", "name": "str",
+                                                      "_parent": _node("vol", 2, _node("part", 1, _ROOT))}))
+    c.ensures("len(result) == 3 and result[0] == self._parent._parent._export_name and result[1] == self._parent._export_name and result[2] == self._export_name",
+              "export-names-of-the-ancestors-outermost-first-then-its-own")
+    c.modifies()
